@@ -431,6 +431,10 @@ func (g *G) try() (fsx.Op, bool) {
 		}
 		return fsx.Op{K: k, P: g.Path(), N: ids[g.R.IntN(3)], M: ids[g.R.IntN(3)]}, true
 	case x < 730:
+		if n := g.R.IntN(12); n < 2 {
+			// only one of the two times is given (-2: the access time, -3: the modification time)
+			return fsx.Op{K: "Chtimes", P: g.Path(), N: int64(-2 - n)}, true
+		}
 		return fsx.Op{K: "Chtimes", P: g.Path(), N: int64(1 + g.R.IntN(5))}, true
 	case x < 760:
 		if !g.Chdir {
